@@ -66,7 +66,7 @@ def function_handles_blobs(fi: FuncInfo) -> bool:
 
 def rule_a(ctx: Context, R: Reporter):
     sites = all_sites(ctx)
-    R.floor("C07.a", "record-move sites", len(sites), 5)
+    R.floor("C07.a", "record-move sites", len(sites), 3)
     R.analysed["C07.a:sites"] = [f"{s.key()} fields={sorted(s.fields())}" for s in sites]
     n_field_obl = 0
     for s in sites:
